@@ -239,6 +239,8 @@ pub struct LinkState<In, Out> {
     /// number of items ever handed to the peer side of the wire
     pub wired: u64,
     pub next_calls: u32,
+    /// end-of-stream has been returned once; later polls block (see poll_next)
+    pub eof_returned: bool,
     /// sticky failure in force
     broken: bool,
 }
@@ -280,6 +282,7 @@ pub fn sim_link<In, Out>(id: u8, side: &'static str, cfg: LinkCfg) -> (SimTransp
         mon: Monitor::default(),
         wired: 0,
         next_calls: 0,
+        eof_returned: false,
         broken: false,
     }));
     (SimTransport { st: st.clone() }, PeerEnd { st })
@@ -354,6 +357,17 @@ impl<In: Describe, Out> Stream for SimTransport<In, Out> {
         let mut st = self.st.borrow_mut();
         let link = st.id;
         st.next_calls += 1;
+        if st.eof_returned {
+            // The Stream contract leaves polling after the end unspecified ("may panic, block
+            // forever, or cause other kinds of problems"): this transport blocks forever, without
+            // a wake-up. A component that needs to remember the end has to do so itself.
+            drop(st);
+            if let Some(s) = cur() {
+                s.count("probe.polled_after_end_of_stream");
+            }
+            log_op(link, Op::Next, Res::Pending, None);
+            return Poll::Pending;
+        }
         if st.fault(Op2::Next) {
             st.mon.read_failed = true;
             drop(st);
@@ -365,6 +379,7 @@ impl<In: Describe, Out> Stream for SimTransport<In, Out> {
         }
         if st.fault(Op2::NextEof) {
             st.in_eof = true;
+            st.eof_returned = true;
             st.inbox.clear();
             drop(st);
             if let Some(s) = cur() {
@@ -380,6 +395,7 @@ impl<In: Describe, Out> Stream for SimTransport<In, Out> {
             return Poll::Ready(Some(Ok(x)));
         }
         if st.in_eof {
+            st.eof_returned = true;
             drop(st);
             log_op(link, Op::Next, Res::Eof, None);
             return Poll::Ready(None);
